@@ -19,6 +19,12 @@ CHECKS['C12'] = dict(
     note='Trusts the abstract machine semantics in lib/absmach.py (written from ops.rs); windows containing adjacencies the compiler never emits are outside the quantifier and not enumerated.',
     ref='DESIGN.md §2 C12')
 
+CHECKS['C06'] = dict(
+    technique='offline bytecode verifier (all CFG paths) over compile dumps of the real compiler + online in-VM stack monitor on executed paths',
+    text='Every function the real compiler emits for the corpus (fixtures, generated programs, opcode-coverage and boundary programs) is dumped by a hook and verified offline over all control-flow paths: consistent depth at joins, no pop below callee+parameters, local/capture/constant/cache operands in range, maximum depth within the reservation, handler depth equal to the live depth, jump distances in range and the encoded bytes re-derived by an independent encoder. The same programs run on debug and release builds under an in-VM monitor that checks depth, ip and handler depth before every instruction.',
+    note='Trusts the stack-effect table in lib/lyverify.py (written from ops.rs) and the dump hook reporting what is really encoded; the all-paths claim holds for the functions of the corpus only.',
+    ref='DESIGN.md §2 C06')
+
 PENDING = {}
 
 
